@@ -466,9 +466,9 @@ func runBusy(r *result, wd *world, c runCfg, hung func(string) *result) *result 
 }
 
 func waitFor(d time.Duration, cond func() bool) bool {
-	deadline := time.Now().Add(eff(d))
+	t0 := time.Now()
 	for !cond() {
-		if time.Now().After(deadline) {
+		if time.Since(t0) > eff(d) {
 			hangs.expired(d)
 
 			return false
